@@ -1342,6 +1342,13 @@ func JSONBodyDecoder(body io.Reader, header http.Header, schema *openapi3.Schema
 	if err := dec.Decode(&value); err != nil {
 		return nil, &ParseError{Kind: KindInvalidFormat, Cause: err}
 	}
+	// The body is one JSON value: only white space may follow it.
+	if _, err := dec.Token(); err != io.EOF {
+		if err == nil {
+			err = errors.New("unexpected data after the JSON value")
+		}
+		return nil, &ParseError{Kind: KindInvalidFormat, Cause: err}
+	}
 	return value, nil
 }
 
